@@ -3,18 +3,66 @@
 (* HeaderMirrorDefs.  Agreement is evaluated on the transcription; every      *)
 (* disagreement is a lead that must be reproduced with the real client and    *)
 (* the real server before it counts (DESIGN.md section 3).                    *)
+(*                                                                            *)
+(* Cases: the named histories x the table (complete when FullCross, else the  *)
+(* baseline history x the complete table and the others x the Pivot rows),    *)
+(* plus every well-formed history of at most HistLen steps x the Probe rows.  *)
 EXTENDS HeaderMirrorDefs, Json, SequencesExt
+CONSTANTS HistLen, FullCross
 
-Leads == {c \in CaseSet : ~Holds(c, Expected(c))}
+H(ttl, page, sub, steps) == [ttl |-> ttl, page |-> page, sub |-> sub, steps |-> steps]
+Baseline == H("none", "first", FALSE, <<"list">>)                     \* listed just now, no ttl
+Named == {Baseline,
+          H("none", "first", FALSE, <<>>),                            \* never listed
+          H("pos", "first", FALSE, <<"list">>),                       \* listed just now, within the ttl
+          H("pos", "first", FALSE, <<"list", "wait">>),               \* positive ttl, expired since
+          H("none", "first", FALSE, <<"list", "wait">>),              \* no ttl, listed long ago
+          H("none", "later", FALSE, <<"list">>),                      \* on a later page only
+          H("pos", "later", FALSE, <<"list", "wait">>),               \* later page, ttl expired
+          H("none", "first", FALSE, <<"list", "change">>),            \* changed since, not listed again
+          H("none", "first", FALSE, <<"list", "change", "list">>),    \* changed since, listed again
+          H("pos", "first", FALSE, <<"list", "change", "list">>),     \* changed since, second list answered from the cache
+          H("pos", "first", FALSE, <<"list", "change", "wait", "list">>),  \* changed, ttl expired, listed again
+          H("none", "first", TRUE, <<"list", "change">>),             \* changed, client notified, not listed again
+          H("pos", "first", TRUE, <<"list", "change", "list">>),      \* changed, client notified, listed again
+          H("none", "later", FALSE, <<"list", "shrink">>),            \* moved to the first page since, not listed again
+          H("none", "later", FALSE, <<"list", "shrink", "change", "list">>)}  \* moved and changed, listed again
+AllHists == Hists(HistLen)
+
+Pivot(r) == r.depth \in {1, 3} /\ r.hname = "plain" /\ r.nsib \in {0, 1}
+Probe(r) == /\ <<r.ty, r.val>> \in {<<"string", "ascii">>, <<"string", "absent">>, <<"string", "nonascii">>,
+                                    <<"integer", "maxsafe">>, <<"boolean", "false">>}
+            /\ <<r.depth, r.nsib, r.hname>> \in {<<1, 0, "plain">>, <<2, 1, "lower">>}
+CaseSet == {WithHist(r, Baseline) : r \in RowSet}
+           \cup {WithHist(r, h) : r \in {r \in RowSet : FullCross \/ Pivot(r)}, h \in Named}
+           \cup {WithHist(r, h) : r \in {r \in RowSet : Probe(r)}, h \in AllHists}
+HistSet == Named \cup AllHists
+
+\* a lead: some outcome the code-shaped model allows breaks the property (certain: every such outcome does)
+Leads == {c \in CaseSet : \E o \in ExpectedSet(c) : ~Holds(c, o)}
+CertainLeads == {c \in Leads : \A o \in ExpectedSet(c) : ~Holds(c, o)}
+HistInfo(h) == [hist |-> h, informed |-> Informed(h), kinds |-> SetToSeq(DefKinds(h)), src |-> Source(h),
+                named |-> h \in Named]
 \* vacuity witnesses
-SomeEachForm == \A h \in HdrForms : \E c \in CaseSet : ClientHdr(c) = h
-SomeAccepted == \E c \in CaseSet : InScope(c) /\ Expected(c).accepted
-SomeOutOfScopeRejected == \E c \in CaseSet : ~InScope(c) /\ ~Expected(c).accepted
+SomeEachForm == \A h \in HdrForms : \E c \in RowSet : ClientHdr(c) = h
+SomeAccepted == \E c \in CaseSet : InScope(c) /\ Informed(c.hist) /\ \A o \in ExpectedSet(c) : o.accepted
+SomeOutOfScopeRejected == \E c \in CaseSet : ~InScope(c) /\ \A o \in ExpectedSet(c) : ~o.accepted
+SomeEachKind == \A d \in {"none", "current", "stale"} : \E h \in Named : d \in DefKinds(h)
+SomeUninformedRejected == \E c \in CaseSet : ~Informed(c.hist) /\ InScope(c) /\ \A o \in ExpectedSet(c) : ~o.accepted
+SomeEachSource == /\ \A p \in {"first", "later", "moved"} : \E h \in Named : Informed(h) /\ Source(h).page = p
+                  /\ \A a \in {"nottl", "fresh", "expired"} : \E h \in Named : Informed(h) /\ Source(h).age = a
 
-ASSUME B64AlwaysAccepted /\ EncodeIffNeeded /\ (\A c \in CaseSet : OwnValues(c))
-ASSUME SomeEachForm /\ SomeAccepted /\ SomeOutOfScopeRejected
-ASSUME PrintT(ToJson([cases |-> Cardinality(CaseSet), inscope |-> Cardinality({c \in CaseSet : InScope(c)}),
-                      leads |-> Cardinality(Leads), leadvals |-> SetToSeq({c.val : c \in Leads})]))
+ASSUME Named \subseteq Hists(4) /\ Cardinality(Named) = 15
+ASSUME B64AlwaysAccepted /\ EncodeIffNeeded /\ (\A c \in RowSet : OwnValues(c))
+ASSUME ListedStaysKnown(HistLen) /\ NeverListedKnowsNothing(HistLen) /\ InformedHoldsCurrent(HistLen)
+ASSUME OutdatedOnlyFromOrphans(HistLen) /\ NotifiedNeverOutdated(HistLen)
+ASSUME SomeEachForm /\ SomeAccepted /\ SomeOutOfScopeRejected /\ SomeEachKind /\ SomeUninformedRejected /\ SomeEachSource
+ASSUME PrintT(ToJson([cases |-> Cardinality(CaseSet), inscope |-> Cardinality({c \in CaseSet : InScope(c) /\ Informed(c.hist)}),
+                      hists |-> Cardinality(HistSet), informed |-> Cardinality({h \in HistSet : Informed(h)}),
+                      leads |-> Cardinality(Leads), certain |-> Cardinality(CertainLeads),
+                      leadvals |-> SetToSeq({c.val : c \in Leads})]))
 ASSUME ndJsonSerialize("mirror_leads.ndjson", SetToSeq(Leads))
+ASSUME ndJsonSerialize("mirror_certain.ndjson", SetToSeq(CertainLeads))
+ASSUME ndJsonSerialize("mirror_hists.ndjson", SetToSeq({HistInfo(h) : h \in HistSet}))
 ASSUME ndJsonSerialize("mirror_cases.ndjson", SetToSeq(CaseSet))
 =============================================================================
